@@ -160,6 +160,14 @@ func c08PbGetter(field string) externalFn {
 		val := (*recv).(structure)
 		for i := 0; i < st.NumFields(); i++ {
 			if st.Field(i).Name() == field {
+				// proto3 `optional` scalar: field *T, getter returns T (zero when unset)
+				if fp, ok := st.Field(i).Type().Underlying().(*types.Pointer); ok && types.Identical(fp.Elem(), res) {
+					p, _ := val[i].(*value)
+					if p == nil {
+						return zero(res)
+					}
+					return *p
+				}
 				return val[i]
 			}
 		}
@@ -217,7 +225,13 @@ func init() {
 	const pb = "github.com/rpcpool/yellowstone-faithful/old-faithful-proto/old-faithful-grpc"
 	for _, g := range [][2]string{
 		{"GetRequest", "Id"}, {"GetRequest", "Block"}, {"GetRequest", "Transaction"}, {"GetRequest", "Version"}, {"GetRequest", "BlockTime"},
-		{"Transaction", "Transaction"}, {"Transaction", "Meta"},
+		{"Transaction", "Transaction"}, {"Transaction", "Meta"}, {"Transaction", "Index"},
+		{"StreamTransactionsFilter", "Vote"}, {"StreamTransactionsFilter", "Failed"}, {"StreamTransactionsFilter", "AccountInclude"},
+		{"StreamTransactionsFilter", "AccountExclude"}, {"StreamTransactionsFilter", "AccountRequired"}, {"StreamBlocksFilter", "AccountInclude"},
+		{"StreamTransactionsRequest", "StartSlot"}, {"StreamTransactionsRequest", "EndSlot"}, {"StreamTransactionsRequest", "Filter"},
+		{"StreamBlocksRequest", "StartSlot"}, {"StreamBlocksRequest", "EndSlot"}, {"StreamBlocksRequest", "Filter"},
+		{"BlockRequest", "Slot"}, {"BlockTimeRequest", "Slot"}, {"TransactionRequest", "Signature"},
+		{"BlockResponse", "Transactions"}, {"BlockResponse", "Slot"}, {"TransactionResponse", "Transaction"}, {"TransactionResponse", "Index"}, {"TransactionResponse", "Slot"},
 	} {
 		name := "(*" + pb + "." + g[0] + ").Get" + g[1]
 		if externals[name] == nil {
